@@ -100,6 +100,8 @@ pub struct XTable {
     pub rf: String,
     pub header_rows: Option<u32>,
     pub totals_rows: Option<u32>,
+    /// totalsRowShown: whether a totals row was shown the last time one existed — says nothing about one existing now
+    pub totals_row_shown: Option<bool>,
     pub columns: Vec<String>,
 }
 
@@ -130,7 +132,9 @@ pub struct XStyles {
 }
 
 #[derive(Clone, Copy, Debug, PartialEq)]
-pub enum DimMode { Exact, Absent, TooSmall, TooLarge }
+pub enum DimMode { Exact, Absent, TooSmall, TooLarge,
+    /// more than one cell, but only the first used row (and one column too many): advisory and out of date
+    StaleRows }
 #[derive(Clone, Copy, Debug, PartialEq)]
 pub enum RMode { Explicit, Implicit }
 #[derive(Clone, Copy, Debug, PartialEq)]
@@ -241,6 +245,7 @@ pub fn sheet_xml(sh: &XSheet, enc: &XEnc, table_rids: &[String]) -> String {
                 DimMode::Exact => if (r0, c0) == (r1, c1) { a1(r0, c0) } else { format!("{}:{}", a1(r0, c0), a1(r1, c1)) },
                 DimMode::TooSmall => a1(r0, c0),
                 DimMode::TooLarge => "A1:XFD1048576".to_string(),
+                DimMode::StaleRows => format!("{}:{}", a1(r0, c0), a1(r0, (c0 + 1).min(16383))),
                 DimMode::Absent => unreachable!(),
             }
         };
@@ -392,6 +397,7 @@ pub fn table_xml(t: &XTable, id: usize) -> String {
     let mut o = format!("<?xml version=\"1.0\" encoding=\"UTF-8\" standalone=\"yes\"?>\n<table xmlns=\"{NS_MAIN}\" id=\"{id}\" name=\"{}\" displayName=\"{}\" ref=\"{}\"", esc(&t.name), esc(&t.display_name), t.rf);
     if let Some(h) = t.header_rows { o.push_str(&format!(" headerRowCount=\"{h}\"")); }
     if let Some(h) = t.totals_rows { o.push_str(&format!(" totalsRowCount=\"{h}\"")); }
+    if let Some(h) = t.totals_row_shown { o.push_str(&format!(" totalsRowShown=\"{}\"", h as u8)); }
     o.push('>');
     o.push_str(&format!("<tableColumns count=\"{}\">", t.columns.len()));
     for (i, c) in t.columns.iter().enumerate() { o.push_str(&format!("<tableColumn id=\"{}\" name=\"{}\"/>", i + 1, esc(c))); }
